@@ -212,6 +212,15 @@ func c13Exec(c *Ctx, op string) string {
 		}
 		out, _ := confCanon(conf)
 		// monitors, evaluated on the real generator's output
+		if cont {
+			// rules are installed last, when the interface already has its name inside the pod: a rule that names
+			// the outgoing interface must name that one, or the kernel stores it detached and it never matches
+			for _, r := range conf.Rules {
+				if r.OifName != "" && r.OifName != pc.cfg.ContainerIfName {
+					c.Violate("C13/oif-rule/"+f[1], fmt.Sprintf("rule for outgoing interface %q, the pod's interface is %q", r.OifName, pc.cfg.ContainerIfName), op)
+				}
+			}
+		}
 		for _, fam := range []string{"4", "6"} {
 			if pc.famOn[fam] {
 				continue
